@@ -11,6 +11,7 @@ import (
 	cose "github.com/veraison/go-cose"
 	"github.com/veraison/psatoken"
 
+	"verif/harness/extprof"
 	"verif/harness/keys"
 	"verif/harness/model"
 	"verif/harness/mon"
@@ -128,9 +129,16 @@ func newC19World(c *mon.Ctx, g *model.Gen, algs [2]string) (*c19World, error) {
 					continue
 				}
 			}
+			if valid && p == 2 && g.R.Intn(3) == 0 {
+				a.Canon, a.Profile = extprof.ExtP2Name, model.SP(extprof.ExtP2Name)
+			}
 			x, err := obs.Build(a)
 			if err != nil {
 				continue
+			}
+			if xe, ok := x.(*extprof.ExtP2Claims); ok {
+				ts := int64(g.R.Intn(3)) // 0 is a legitimate value: present, not absent
+				xe.Timestamp = &ts
 			}
 			if _, err := psatoken.EncodeClaimsToCBOR(x); err != nil {
 				continue
@@ -308,6 +316,10 @@ func c19Run(c *mon.Ctx, g *model.Gen, w *c19World, ops []c19Op, tag string) int 
 						return false
 					}
 					g1, g2 := obs.Observe(e.Claims), obs.Observe(ref)
+					if fmt.Sprint(extOf(e.Claims)) != fmt.Sprint(extOf(ref)) {
+						fail("verified-for-other-claims/extension-member/"+after, fmt.Sprintf("Verify succeeded but the extension claim of the attached claims (%v) differs from the one in the covered payload (%v)", extOf(e.Claims), extOf(ref)), map[string]any{"payload_hex": mon.Hex(pay)})
+						return false
+					}
 					if d := model.ObsDiff(&g2, &g1); d != "" || g1.Validate != g2.Validate {
 						fail("verified-for-other-claims/"+after, "Verify succeeded but the attached claims differ from the decoding of the payload the signature covers: "+d, map[string]any{"payload_hex": mon.Hex(pay), "attached": g1.String(), "covered": g2.String()})
 						return false
@@ -544,6 +556,10 @@ func c19Run(c *mon.Ctx, g *model.Gen, w *c19World, ops []c19Op, tag string) int 
 
 func runC19(c *mon.Ctx) {
 	c.Rule(fmt.Sprintf("histories on ONE Evidence (claims attached) over an alphabet of %d operations: SetClaims(valid|invalid), direct assignment of valid/invalid claims, outside mutation of the attached claims, Sign / ValidateAndSign with signers {working key 0, working key 1, returns error, returns error AND bytes, returns (nil,nil), returns empty, returns garbage of right / wrong length, reports an unsupported algorithm, reports the reserved algorithm}, UnmarshalCOSE of {valid token by key 0 / key 1, validly signed token with invalid claims, tampered token, garbage, empty input, validly signed envelope whose payload does not decode as claims, the token this Evidence produced last}; after EVERY operation Verify is probed with key 0, key 1, an unrelated key and nil in random order. All histories of length <= 3 are enumerated exhaustively (fault kinds x positions), plus seeded random histories of length 4..30; algorithms rotate over ES256/384/512, EdDSA, PS256/384/512. Trace checker (model: attached claims identity, last envelope = none | token T | unknown-after-failed-decode, claims-replaced flag): a failed op returns no bytes; working signer + encodable (valid for ValidateAndSign) claims => success, also after any number of failures; every produced token verifies independently and on its own, its payload = encoding of the attached claims; after a failed sign every Verify fails; after producing/consuming token T, Evidence.Verify(pk) <=> independent verifier(T, pk); whenever Verify succeeds and claims were not replaced since the last sign/decode attempt, the held signature covers the held protected+payload under pk (hook H2 + stdlib crypto) and the attached claims are nil or equal to the decoding of that payload. distinct_nontrivial = distinct operation sequences (length<=3: all; longer: distinct op-kind sequences)", len(c19Alphabet)))
+	if err := extprof.Register(extprof.ExtP2Name); err != nil {
+		c.Violation("harness/register", err.Error(), nil)
+		return
+	}
 	g := model.NewGen(c.Seed*2707 + int64(c.Shard))
 	algPairs := [][2]string{{"ES256", "EdDSA"}, {"EdDSA", "ES256"}, {"ES384", "PS256"}, {"PS256", "ES256"}, {"ES512", "PS384"}, {"PS384", "EdDSA"}, {"PS512", "ES384"}, {"ES256", "ES256"}}
 	newWorld := func(i int) *c19World {
